@@ -133,3 +133,31 @@ contract(L + "LoggingCapture.abandon", props=["C18"], params={"self": "ref:Loggi
          ensures={"saved-level-restored-whatever-its-value":
                   "implies(not is_none(old(self.old_level)), %s.level == old(self.old_level) and is_none(self.old_level))" % ROOT,
                   "nothing-saved-nothing-changed": "implies(is_none(old(self.old_level)), %s.level == old(%s.level))" % (ROOT, ROOT)})
+
+# -- CaptureController.captured: each part of the stored output is the text of ITS OWN capture buffer ----------------
+oracle("buffer_text", ["val"], "val:str")     # what a capture buffer holds (StringIO.getvalue / LoggingCapture.getvalue)
+oracle("cap_out", ["ref"], "val")
+oracle("cap_err", ["ref"], "val")
+oracle("cap_log", ["ref"], "val")
+contract("abs:buffer.getvalue", trusted=True, pos_params=["self"], pure=True, result="str",
+         ensures={"value": "result == buffer_text(self)"}, doc="StringIO.getvalue() / LoggingCapture.getvalue(): the text captured so far")
+contract("new:Captured", trusted=True, pos_params=["stdout", "stderr", "log_output"],
+         defaults={"stdout": None, "stderr": None, "log_output": None}, fresh_result="Captured",
+         ensures={"parts": "cap_out(result) == stdout and cap_err(result) == stderr and cap_log(result) == log_output"},
+         doc="Captured(stdout, stderr, log_output): a holder of the three parts (None is stored as the empty text)")
+contract(CP + "CaptureController.captured", props=P, params={"self": "ref:CaptureController"}, self_classes=["CaptureController"],
+         result="ref:Captured", pure=True,
+         callsites={"self.stdout_capture.getvalue": "abs:buffer.getvalue", "self.stderr_capture.getvalue": "abs:buffer.getvalue",
+                    "self.log_capture.getvalue": "abs:buffer.getvalue", "Captured": "new:Captured"},
+         ensures={
+             "stdout-part-is-the-text-of-the-stdout-buffer-if-stdout-is-captured":
+                 "cap_out(result) == (buffer_text(self.stdout_capture) if self.config.stdout_capture and "
+                 "not is_none(self.stdout_capture) else None)",
+             "stderr-part-is-the-text-of-the-stderr-buffer-if-stderr-is-captured":
+                 "cap_err(result) == (buffer_text(self.stderr_capture) if self.config.stderr_capture and "
+                 "not is_none(self.stderr_capture) else None)",
+             "log-part-is-the-text-of-the-log-capture-if-logging-is-captured":
+                 "cap_log(result) == (buffer_text(self.log_capture) if self.config.log_capture and "
+                 "truthy(self.log_capture) else None)"},    # a LoggingCapture without records is falsy: its text is empty anyway
+         doc="what Scenario.run / Step.run store as captured output and the reporters print: a part is present exactly when "
+             "its own capture is configured and set up")
